@@ -3,7 +3,7 @@
 # append-only README / DESIGN false-alarm list)
 b=$1
 cd /verif
-git merge -q $b -m "Merge $b" 2>&1 | grep -i "conflict" 
+git merge -q $b -m "Merge $b" 2>&1 | grep -i "conflict\|error\|overwritten"
 for f in $(git diff --name-only --diff-filter=U); do
   case $f in
     evidence/*|MANIFEST.json) git checkout --ours $f;;
